@@ -107,7 +107,7 @@ pub fn run(args: &[String]) -> i32 {
                         for (p, t) in &l.op_dts {
                             let rel = p.split("/./").last().unwrap_or(p);
                             let stem = rel.strip_suffix(".graphql").unwrap_or(rel);
-                            outputs.push(json!({"name": format!("{stem}.d.graphql.ts"), "bodyDigest": fnv(t)}));
+                            outputs.push(json!({"name": format!("{stem}.{}", c["opExt"].as_str().unwrap_or("d.graphql.ts")), "bodyDigest": fnv(t)}));
                         }
                         json!({"k": "ok", "outputs": outputs, "diags": l.diags})
                     }
